@@ -6,6 +6,16 @@ from lightworks.emulator.results import SamplingResult, SimulationResult
 
 
 def worker(st, ctx):
+    from ..common import library_raised
+    try:
+        return _worker(st, ctx)
+    except Exception as e:  # noqa: BLE001
+        if not library_raised(e):
+            raise
+        return {"findings": [("raised", "%s: %s" % (type(e).__name__, e))], "case": (st["ins"], st["outs0"], st["maps"], ctx["typ"])}
+
+
+def _worker(st, ctx):
     typ = ctx["typ"]
     ins = [lw.State(list(s)) for s in st["ins"]]
     outs0 = [lw.State(list(s)) for s in st["outs0"]]
